@@ -109,4 +109,8 @@ MUTANTS = [
     # ---- ASTX (gate parameters, type keywords)
     M('astx:gate:angles-are-qubits', 'astx', ['C05', 'C06'], 'ast::Gate::angle_params', '        if qubits_or_none.is_none() {\n            qubits_or_none\n        } else {\n            qubits_or_angles\n        }', '        qubits_or_angles'),
     M('astx:scalar_type:uint-is-int', 'astx', ['C09'], 'ast::ScalarType::kind', 'T![uint] => UInt,', 'T![uint] => Int,'),
+    # ---- C13 scope / delay diagnostics
+    M('sema:qdecl:global-check-dropped', 'sema', ['C13'], 'stmt_to_asg_stmt', '            if !context.symbol_table().in_global_scope() {\n                context.insert_error(NotInGlobalScopeError, &q_decl);\n            }', ''),
+    M('sema:def:global-check-inverted', 'sema', ['C13'], 'stmt_to_asg_stmt', '            if !context.symbol_table().in_global_scope() {\n                context.insert_error(NotInGlobalScopeError, &name_node);\n            }', '            if context.symbol_table().in_global_scope() {\n                context.insert_error(NotInGlobalScopeError, &name_node);\n            }'),
+    M('sema:delay:duration-check-dropped', 'sema', ['C13'], 'stmt_to_asg_stmt', 'if !matches!(duration.get_type(), Type::Duration(_)) {', 'if false {'),
 ]
